@@ -9,6 +9,7 @@
 */
 #include "vh.h"
 #include <pthread.h>
+#include <ctype.h>
 
 /* ---------- the universe ---------- */
 
@@ -183,6 +184,26 @@ static void call_dispatcher(int k, var obj) {
 /* stub 4 (hash) has a default implementation, so it is only checked when present */
 
 static var SYN[300]; static int nsyn;          /* synthetic classes: run-time type objects used as classes */
+/* near-name classes: for every built-in class a class whose name extends it ("LenX"), one whose name is a proper
+   prefix of it ("Le") and one that differs in case only ("len").  A lookup that compares names loosely (prefix,
+   case-insensitive, by length) confuses them with the built-in class; the synthetic names are prefixes of one
+   another as well ("Syn1", "Syn10", "Syn100"). */
+static var NEAR[3 * 40]; static int nnear;
+
+static void check_absent(var type, var cls, const char* phase) {
+  char objbuf[sizeof(struct Header) + 64];
+  memset(objbuf, 0, sizeof objbuf);
+  var obj = fake_object(type, objbuf);
+  vh_evals(4);
+  var got = type_instance(type, cls);
+  if (got != NULL) { vh_violation(K("type_instance:instance-for-an-undeclared-class"), "%s: type_instance(%s, %s) = %p although the type does not declare that class", phase, raw_name(type), raw_name(cls), got); }
+  if (instance(obj, cls) != NULL) { vh_violation(K("instance:instance-for-an-undeclared-class"), "%s: instance(object of %s, %s) is not NULL", phase, raw_name(type), raw_name(cls)); }
+  if (type_implements(type, cls) || implements(obj, cls)) { vh_violation(K("type_implements:wrong-answer"), "%s: %s is reported to implement %s", phase, raw_name(type), raw_name(cls)); }
+  var exc = NULL;
+  VH_CATCH((void)type_method_at_offset(type, cls, 0, "member"), exc);
+  if (exc != ClassError) { vh_violation(K("type_method:missing-member-did-not-raise-classerror"), "%s: type_method(%s, %s, member 0) gave %s", phase, raw_name(type), raw_name(cls), vh_exc_name(exc)); }
+  vh_count("undeclared_near_name_lookups");
+}
 
 static var make_instance(var cls, int nmembers, void** fns, uint32_t present_mask) {
   char* blk = calloc(1, sizeof(struct Header) + sizeof(var) * (size_t)(nmembers ? nmembers : 1));
@@ -207,8 +228,23 @@ static void runtime_type_case(vh_rng* r, int ninst) {
   }
   /* fill up with synthetic classes to reach ninst instances */
   static void* two[2] = { (void*)stub0, (void*)stub1 };
-  int used_syn = 0;
-  while (nd < ninst && used_syn < nsyn) { decl_cls[nd] = SYN[used_syn]; decl_inst[nd] = make_instance(SYN[used_syn], 2, two, 3); nd++; used_syn++; }
+  int used_syn = 0, ndisp_decl = nd;
+  char near_used[3 * 40]; memset(near_used, 0, sizeof near_used);
+  char syn_used[300]; memset(syn_used, 0, sizeof syn_used);
+  int near_quota = vh_chance(r, 70) ? 1 + (int)vh_below(r, 8) : 0;
+  while (nd < ninst && used_syn < nsyn) {
+    if (near_quota > 0) {
+      int k = (int)vh_below(r, (uint64_t)nnear);
+      near_quota--;
+      if (!near_used[k]) { near_used[k] = 1; decl_cls[nd] = NEAR[k]; decl_inst[nd] = make_instance(NEAR[k], 2, two, 3); nd++; vh_count("near_name_classes_declared"); }
+      continue;
+    }
+    /* small types take a random synthetic class (so "Syn10" is declared without "Syn1"), large ones take them all */
+    int k = ninst < 60 ? (int)vh_below(r, (uint64_t)nsyn) : used_syn;
+    if (syn_used[k]) { for (k = 0; syn_used[k]; k++) { } }
+    syn_used[k] = 1;
+    decl_cls[nd] = SYN[k]; decl_inst[nd] = make_instance(SYN[k], 2, two, 3); nd++; used_syn++;
+  }
   /* random declaration order */
   int order[300];
   for (int i = 0; i < nd; i++) { order[i] = i; }
@@ -216,7 +252,7 @@ static void runtime_type_case(vh_rng* r, int ninst) {
   for (int i = 0; i < nd; i++) { push(args, decl_inst[order[i]]); }
   var exc = NULL, type = NULL;
   VH_CATCH(type = new_root_with(Type, args), exc);       /* root: the harness keeps run-time types in static storage */
-  vh_op("run-time type with %d instances (%d dispatch classes)", nd, nd - used_syn);
+  vh_op("run-time type with %d instances (%d dispatch classes)", nd, ndisp_decl);
   if (exc || !type) { vh_violation(K("runtime-type:construction-raised"), "new(Type, ...) with %d instances raised %s", nd, vh_exc_name(exc)); return; }
   if (ntypes < MAXTYPES) { TYPES[ntypes++] = type; }
   /* every declared instance is found, by type-level and object-level lookup, whatever the order */
@@ -239,6 +275,9 @@ static void runtime_type_case(vh_rng* r, int ninst) {
     for (int i = 0; i < nd; i++) { if (decl_cls[i] == *CLASSES[c].cls) { declared = 1; } }
     if (!declared) { check_cell(type, &CLASSES[c], "run-time type", 0); }
   }
+  /* near-name and synthetic classes it does not declare */
+  for (int k = 0; k < nnear; k++) { if (!near_used[k]) { check_absent(type, NEAR[k], "run-time type"); } }
+  for (int k = 0; k < nsyn; k += (ninst < 60 ? 1 : 7)) { if (!syn_used[k]) { check_absent(type, SYN[k], "run-time type"); } }
   /* dispatchers: exactly the declared stub runs, or ClassError and nothing runs */
   for (int d = 0; d < NDISP; d++) {
     for (int m = 0; m < DISP[d].nmembers; m++) {
@@ -334,6 +373,9 @@ static void fixed(void) {
   full_matrix("cold-reverse", 1);
   for (int i = 0; i < ntypes; i++) { check_cast(TYPES[i], TYPES[(i + 7) % ntypes]); }
   vh_count_n("type_objects_in_matrix", (uint64_t)ntypes);
+  /* no built-in type declares a near-name class */
+  for (int i = 0; i < ntypes; i++) { reset_caches(TYPES[i]); }
+  for (int i = 0; i < ntypes; i++) { for (int k = 0; k < nnear; k++) { check_absent(TYPES[i], NEAR[k], "near-name"); } }
   /* the tuple terminator used as the type of a failing lookup (repaired defect, see KNOWN_FINDINGS.txt) */
   {
     var exc;
@@ -392,8 +434,21 @@ int main(int argc, char** argv) {
   for (int i = 0; i < NBUILTIN; i++) { TYPES[ntypes++] = *BUILTIN_TYPES[i]; }
   for (int i = 0; i < NCLASSES; i++) { TYPES[ntypes++] = *CLASSES[i].cls; }
   for (int i = 0; i < 300; i++) {
-    char nm[24]; snprintf(nm, sizeof nm, "Syn%03d", i);
+    char nm[24]; snprintf(nm, sizeof nm, "Syn%d", i);
     SYN[nsyn++] = new_root(Type, $S(strdup(nm)), $I(16));
+  }
+  for (int i = 0; i < NCLASSES; i++) {
+    char nm[3][40]; size_t n = strlen(CLASSES[i].name);
+    snprintf(nm[0], sizeof nm[0], "%sX", CLASSES[i].name);
+    snprintf(nm[1], sizeof nm[1], "%.*s", (int)(n - 1), CLASSES[i].name);
+    snprintf(nm[2], sizeof nm[2], "%s", CLASSES[i].name);
+    for (char* c = nm[2]; *c; c++) { *c = (char)tolower((unsigned char)*c); }
+    for (int v = 0; v < 3; v++) {
+      int clash = strlen(nm[v]) == 0;
+      for (int j = 0; j < NCLASSES; j++) { if (strcmp(nm[v], CLASSES[j].name) == 0) { clash = 1; } }
+      for (int j = 0; j < nnear; j++) { if (strcmp(nm[v], raw_name(NEAR[j])) == 0) { clash = 1; } }
+      if (!clash) { NEAR[nnear++] = new_root(Type, $S(strdup(nm[v])), $I(16)); }
+    }
   }
   return vh_run(argc, argv, "dispatch", fixed, case_random);
 }
